@@ -97,6 +97,11 @@ def returned_record(ff: FuncFlow) -> Optional[Tuple[Dict[object, ast.AST], bool]
     return out, spread
   if isinstance(v, ast.Tuple):
     return {i: e for i, e in enumerate(v.elts)}, False
+  # dict(base, field=value, ...) / dict(**base, field=value): a copy of `base` with some fields replaced
+  if isinstance(v, ast.Call) and ff.ext(v.func) == 'builtins.dict' and len(v.args) <= 1 and v.keywords:
+    out = {k.arg: k.value for k in v.keywords if k.arg is not None}
+    spread = bool(v.args) or any(k.arg is None for k in v.keywords)
+    return out, spread
   return None
 
 
